@@ -11,6 +11,7 @@ mod oracle2;
 mod oracle3;
 mod prog;
 mod sim;
+mod simcfg;
 mod tasks;
 mod teardown;
 
